@@ -3,8 +3,10 @@ package props
 import (
 	"errors"
 	"fmt"
+	"math"
 	"sort"
 	"strings"
+	"sync"
 
 	tmaps "gopkg.in/typ.v4/maps"
 	"gopkg.in/typ.v4/sets"
@@ -26,6 +28,10 @@ func init() { register("C14", runC14) }
 var c14alpha = []string{"a", "A", "b"}
 
 func runC14(c *core.Ctx) {
+	if c.Mode == "readers" {
+		c14readers(c)
+		return
+	}
 	r := c.R
 	if c.Index < 7 {
 		L := int(c.Index)
@@ -565,6 +571,37 @@ func funcAll(c *core.Ctx, in []string, r *core.Rand) bool {
 		if !same("maps.Clear(of the clone)") {
 			return false
 		}
+		// maps with unusual keys: NaN keys are distinct entries that can only be
+		// reached by ranging; struct keys with a NaN part likewise
+		{
+			fm := map[float64]string{}
+			nan := math.NaN()
+			for i, v := range snap {
+				if i%3 == 0 {
+					fm[nan] = v // a new entry every time
+				} else {
+					fm[float64(i)] = v
+				}
+			}
+			var before []string
+			for _, v := range fm {
+				before = append(before, v)
+			}
+			fc := tmaps.Clone(fm)
+			var after []string
+			for _, v := range fc {
+				after = append(after, v)
+			}
+			if len(fc) != len(fm) || !sameMultiset(before, after) {
+				return fail("maps.Clone:nan-keys", fmt.Sprintf("clone of a map with NaN keys holds values %q, original %q", clipS(after), clipS(before)))
+			}
+			if vs := tmaps.Values(fm); !sameMultiset(vs, before) {
+				return fail("Values:nan-keys", "Values of a map with NaN keys differs from ranging it")
+			}
+			if ks := tmaps.Keys(fm); len(ks) != len(fm) {
+				return fail("Keys:nan-keys", fmt.Sprintf("Keys returned %d keys for %d entries", len(ks), len(fm)))
+			}
+		}
 		var nilm map[int]string
 		if len(tmaps.Keys(nilm)) != 0 || len(tmaps.Values(nilm)) != 0 || tmaps.HasKey(nilm, 1) || tmaps.ContainsValue(nilm, "a") || len(tmaps.Clone(nilm)) != 0 {
 			return fail("maps:nil-map", "map helpers misbehave on a nil map")
@@ -582,4 +619,98 @@ func contains(s []string, v string) bool {
 		}
 	}
 	return false
+}
+
+// c14readers (race build): "none of them modifies its input" must also hold while
+// other goroutines are reading the same input. Several goroutines call every
+// read-only helper on ONE shared slice / map; a helper that scribbles on its
+// input, even temporarily, is a race report (and often a wrong result).
+func c14readers(c *core.Ctx) {
+	r := c.R
+	n := r.Range(0, 200)
+	if r.Bool() {
+		n = r.Range(32, 600)
+	}
+	in := make([]string, n, n+r.Intn(3))
+	for i := range in {
+		in[i] = fmt.Sprintf("k%d", r.Intn(n/2+1))
+	}
+	m := map[int]string{}
+	for i, v := range in {
+		m[i] = v
+	}
+	excl := tmaps.NewSetFromSlice([]string{"k1", "k3"})
+	ng := r.Range(2, 6)
+	bad := make([]string, ng)
+	var wg sync.WaitGroup
+	start := make(chan struct{})
+	for g := 0; g < ng; g++ {
+		g := g
+		seed := r.Uint64()
+		wg.Add(1)
+		go func() {
+			defer wg.Done()
+			rr := core.NewRand(seed)
+			<-start
+			for it := 0; it < 6; it++ {
+				t := fmt.Sprintf("k%d", rr.Intn(n/2+2))
+				want := -1
+				for i, v := range in {
+					if v == t {
+						want = i
+						break
+					}
+				}
+				if got := slices.Index(in, t); got != want {
+					bad[g] = fmt.Sprintf("Index(%q)=%d want %d while other goroutines read the same slice", t, got, want)
+				}
+				if slices.Contains(in, t) != (want >= 0) {
+					bad[g] = "Contains wrong under concurrent readers"
+				}
+				if got := slices.IndexFunc(in, func(v string) bool { return v == t }); got != want {
+					bad[g] = "IndexFunc wrong under concurrent readers"
+				}
+				_ = slices.ContainsFunc(in, t, strings.EqualFold)
+				_ = slices.Distinct(in)
+				_ = slices.DistinctFunc(in, strings.EqualFold)
+				_ = slices.Filter(in, func(v string) bool { return len(v) > 2 })
+				_ = slices.Map(in, func(v string) int { return len(v) })
+				_ = slices.Fold(in, 0, func(st int, v string) int { return st + len(v) })
+				_ = slices.FoldReverse(in, 0, func(st int, v string) int { return st*3 + len(v) })
+				_ = slices.Any(in, func(v string) bool { return v == t })
+				_ = slices.All(in, func(v string) bool { return v != "" })
+				_ = slices.GroupBy(in, func(v string) int { return len(v) })
+				_ = slices.CountBy(in, func(v string) int { return len(v) })
+				_ = slices.Except(in, []string{"k0", "k2"})
+				_ = slices.ExceptSet(in, excl)
+				_ = slices.Trim(in, []string{"k0"})
+				_ = slices.TrimFunc(in, func(v string) bool { return v == "k1" })
+				_, _ = slices.TryGet(in, rr.Intn(n+1))
+				_ = slices.SafeGet(in, rr.Intn(n+1))
+				if n > 0 {
+					_ = slices.Last(in)
+				}
+				_ = tmaps.Keys(m)
+				_ = tmaps.Values(m)
+				_ = tmaps.Clone(m)
+				_, _ = tmaps.KeyOf(m, t)
+				_ = tmaps.ContainsValue(m, t)
+				_ = tmaps.HasKey(m, rr.Intn(n+1))
+			}
+		}()
+	}
+	close(start)
+	wg.Wait()
+	c.Count("reader_rounds", 1)
+	c.Count("reader_goroutines", int64(ng))
+	for _, b := range bad {
+		if b != "" {
+			c.Violate("readers:wrong-result", b, map[string]any{"n": n, "goroutines": ng})
+			return
+		}
+	}
+	c.NonTrivial(core.Mix(c.Seed, uint64(n), uint64(ng)))
+	if c.WantSample() {
+		c.Sample(map[string]any{"mode": "readers", "slice_length": n, "goroutines": ng, "what": "every read-only helper called concurrently on one shared slice and map"})
+	}
 }
